@@ -1260,7 +1260,8 @@ func stateAnyCommentStart(s *Scanner, c byte) state {
 		// any symbol inline user comment
 		s.annotation = annotationNone
 		s.step = stateInlineComment
-		return scanContinue
+		// The comment may be empty: then this byte is the line end that closes it.
+		return stateInlineComment(s, c)
 	} else if s.index < s.dataSize && s.data.Byte(s.index) == '#' { // third #
 		s.annotation = annotationNone
 		s.step = stateMultiLineComment
